@@ -30,7 +30,7 @@ func init() {
 			Prop: prop, Name: "service", Level: "exploration",
 			Build:        func(tier string) sim.Scenario { return buildSvcFan(tier, prop) },
 			Cfg:          sim.RunConfig{Grace: 2 * time.Minute, Horizon: 2 * time.Hour, StepCap: 1500000},
-			RunsQuick:    1200,
+			RunsQuick:    3000,
 			RunsThorough: 100000,
 			Real: []string{"service/rtsp sessions: tcpPushStream, tcpConsumer (TCP and WebSocket), udpConsumer", "service/wsp control + data channel", "service/flv HTTP and WebSocket consumers + av/format/flv muxer/writer",
 				"HTTP mux, stream/API handlers, websocket upgrade", "media registry, Stream, consumptions, GOP cache", "stats connection counters", "Service.Close (shutdown)"},
@@ -56,6 +56,7 @@ func init() {
 }
 
 type fanPub struct {
+	at  time.Time // fake-clock instant of publication
 	p   *rtp.Packet
 	nal []byte // video unit (types 1/5)
 	au  []byte // audio access unit
@@ -89,6 +90,7 @@ func buildSvcFan(tier string, prop string) sim.Scenario {
 	var ended bool
 	var oldStream *media.Stream
 	var minCount = 0
+	var deferredClass, deferredMsg string // reported only when nothing else failed (a recorded finding must not hide the other rules)
 
 	main := func(w *sim.World) {
 		w.PanicClass = prop + "/panic"
@@ -214,6 +216,7 @@ func buildSvcFan(tier string, prop string) sim.Scenario {
 					fp.p = mkRTP(rtp.ChannelVideo, 96, vseq, uint32(i)*3000, true, fp.nal)
 					vseq++
 				}
+				fp.at = time.Now()
 				pmu.Lock()
 				pubs = append(pubs, fp)
 				pmu.Unlock()
@@ -290,6 +293,8 @@ func buildSvcFan(tier string, prop string) sim.Scenario {
 		}
 		if pusher != nil {
 			pusher.c.Close()
+		} else {
+			media.Unregist(oldStream) // the harness publisher of a replaced stream goes away too
 		}
 		cwg.Wait()
 		w.Sleep(2 * time.Second)
@@ -316,6 +321,13 @@ func buildSvcFan(tier string, prop string) sim.Scenario {
 				if c.playedAt.Before(endAt) {
 					w.Probe("fan.eof-checked")
 					if d := c.eofAt.Sub(endAt); d > 5*time.Second {
+						if endCause == "replace" {
+							if deferredClass == "" {
+								deferredClass = "C03/replaced-not-closed"
+								deferredMsg = fmt.Sprintf("%s client %s was attached to the stream when a new publisher replaced it; its connection was closed only %v later (when the old publisher went away), not promptly: a replaced stream that still has consumers is kept until it has none", c.kind, c.name, d)
+							}
+							continue
+						}
 						w.Fail("C03/not-closed-promptly", "%s client %s attached %v before the stream ended by %s, but its connection was closed only %v after the end", c.kind, c.name, endAt.Sub(c.playedAt), endCause, d)
 						return
 					}
@@ -397,6 +409,7 @@ func buildSvcFan(tier string, prop string) sim.Scenario {
 					if c.left {
 						upto = lastHave + 1
 					}
+					var missing []int
 					for i := c.after; i < upto; i++ {
 						ch := int(pubs[i].p.Channel)
 						if !subscribed[ch] || have[i] {
@@ -414,7 +427,24 @@ func buildSvcFan(tier string, prop string) sim.Scenario {
 								continue
 							}
 						}
-						w.Fail("C01/missing", "%s client %s (PLAY answered when %d packets had been published, left early=%v): published packet #%d of %d (channel %d, %d bytes) never arrived although later packets of the channel did and nothing was dropped for backlog", c.kind, c.name, c.after, c.left, i, len(pubs), ch, len(pubs[i].p.Data))
+						missing = append(missing, i)
+					}
+					if len(missing) > 0 {
+						i := missing[0]
+						class, why := "C01/missing", ""
+						// the known shape: the very end of the stream, written within two 20 ms pacing intervals of
+						// buffered.Conn, is still in its write buffer when the connection is closed
+						if c.kind == "tcp" && !c.left && missing[0] > lastHave && pubs[missing[len(missing)-1]].at.Sub(pubs[missing[0]].at) <= 40*time.Millisecond {
+							class, why = "C01/tail-not-flushed", fmt.Sprintf("; the last %d packet(s) of the stream, published within %v, were left in the write buffer of the player's connection when it was closed", len(missing), pubs[missing[len(missing)-1]].at.Sub(pubs[missing[0]].at))
+						}
+						msg := fmt.Sprintf("%s client %s (PLAY answered when %d packets had been published, left early=%v): published packet #%d of %d (channel %d, %d bytes) never arrived (%d packets received, %d missing, real pusher=%v, end by %s) although nothing was dropped for backlog%s", c.kind, c.name, c.after, c.left, i, len(pubs), pubs[i].p.Channel, len(pubs[i].p.Data), len(got), len(missing), realPusher, endCause, why)
+						if class == "C01/tail-not-flushed" { // recorded finding: reported only if every other rule held in this run
+							if deferredClass == "" {
+								deferredClass, deferredMsg = class, msg
+							}
+							continue
+						}
+						w.Fail(class, "%s", msg)
 						return
 					}
 					if !c.left {
@@ -425,6 +455,9 @@ func buildSvcFan(tier string, prop string) sim.Scenario {
 			if w.Failed() {
 				return
 			}
+		}
+		if deferredClass != "" {
+			w.Fail(deferredClass, "%s", deferredMsg)
 		}
 	}
 
@@ -454,6 +487,9 @@ func buildSvcFan(tier string, prop string) sim.Scenario {
 			sort.Strings(names)
 			w.Fail("C03/goroutine", "goroutines of the server survive the end of the stream and of every connection: %v", names)
 		}
+		if !w.Failed() && deferredClass != "" {
+			w.Fail(deferredClass, "%s", deferredMsg)
+		}
 	}
 	cleanup := func(w *sim.World) { sw.teardown() }
 	return sim.Scenario{Main: main, Final: final, Cleanup: cleanup}
@@ -472,7 +508,7 @@ func fanConsume(w *sim.World, sw *svcWorld, c *fanConsumer, base string, pubN fu
 		switch c.kind {
 		case "tcp", "udp":
 			c.cl = sw.rtspConnect(c.name, 1<<20)
-			c.ip = fmt.Sprintf("10.9.1.%d", sw.nextAddr)
+			c.ip = c.cl.ip
 		case "ws":
 			c.cl, err = sw.wsRTSPConnect(c.name, fanPath)
 		case "wsp":
